@@ -27,7 +27,7 @@ Definition rhs_av (a : ann) (r : rhs) : av :=
   | RCopy y => a_get a y
   | RUnknown => (false, true)
   | RUnknownDirty => (false, false)
-  | RConv y => (true, has (fst a) y && has (snd a) y)
+  | RConv y _ => (true, has (fst a) y && has (snd a) y)
   | RNormalize y => (has (fst a) y && has (snd a) y, true)
   | RAssert y ti => (has (fst a) y && (ti || has (snd a) y), negb ti || has (snd a) y)
   end.
@@ -67,6 +67,10 @@ Definition tgt (g : func) (n : N) (k : ann -> bool) : bool :=
   match getn g n with Some t => k (nd_nn t, nd_cl t) | None => false end.
 Definition edge (g : func) (n : N) (s : ann) : bool := tgt g n (fun t => a_le t s).
 
+(* a conversion of a possibly nil pointer is only allowed for the declared typed-nil types *)
+Definition rhs_chk (a : ann) (r : rhs) : bool :=
+  match r with RConv y t => has (fst a) y || mem t (p_tn P) | _ => true end.
+
 Definition store_ok (m : smode) (a : ann) (x : N) : bool :=
   match m with
   | SStrict => has (fst a) x && has (snd a) x
@@ -82,11 +86,15 @@ Definition store_post (m : smode) (a : ann) (x : N) : ann :=
 
 Definition instr_ok (g : func) (i : instr) (a : ann) : bool :=
   match i with
-  | ISet x r n => edge g n (a_set a x (rhs_av a r))
-  | IGuard x n1 n2 => edge g n1 (N.setbit (fst a) x, snd a) && edge g n2 (a_set a x (false, true))
-  | ITypeTest x y ti n1 n2 =>
+  | ISet x r n => rhs_chk a r && edge g n (a_set a x (rhs_av a r))
+  | IGuard x n1 n2 =>
+      (* the nil branch of a test of a certainly non-nil variable is dead: nothing to check *)
+      edge g n1 (N.setbit (fst a) x, snd a) && (has (fst a) x || edge g n2 (a_set a x (false, true)))
+  | ITypeTest x y ti tgt n1 n2 =>
       let ycl := has (snd a) y in
-      edge g n1 (a_set (N.setbit (fst a) y, snd a) x (ti || ycl, negb ti || ycl)) &&
+      (* a successful test against a pointer type of which no typed nil exists yields a non-nil pointer *)
+      let notn := match tgt with Some T => negb ti && negb (mem T (p_tn P)) | None => false end in
+      edge g n1 (a_set (N.setbit (fst a) y, snd a) x (ti || ycl || notn, negb ti || ycl)) &&
       edge g n2 (a_set a x (false, true))
   | IUse x s n => ((has (fst a) x && has (snd a) x) || mem s allow) && edge g n (a_set a x (true, true))
   | IStore x m s n => (store_ok m a x || mem s allow) && edge g n (store_post m a x)
@@ -100,6 +108,7 @@ Definition instr_ok (g : func) (i : instr) (a : ann) : bool :=
       end
   | IBranch n1 n2 => edge g n1 a && edge g n2 a
   | IRet rs => all2 av_ok (fs_results (fn_spec g)) (map (arg_av a) rs)
+  | IHalt => true
   end.
 
 Definition node_ok (g : func) (nd : node) : bool := instr_ok g (nd_instr nd) (nd_nn nd, nd_cl nd).
